@@ -18,9 +18,17 @@ ValueOK(v, tokv) ==
     LET d == Denote(tokv)
     IN ~v.neg /\ RatEq(FromDigits(v.num), FromDigits(v.den), d[1], d[2])
 
+(* the implementation's scanner finds the same tokens, and every NUMBER token is the same text *)
+LexOK(t, toks) ==
+    /\ Len(t.toks) = Len(toks)
+    /\ \A i \in 1..Len(toks) : (toks[i].k = "number" \/ t.toks[i].k = "number") => t.toks[i] = toks[i]
+
 Verdict(t) ==
     LET toks == Lex(t.a)
-    IN IF \E i \in 1..Len(toks) : toks[i].k # "number" \/ ~IsPlainNumber(toks[i].v)
+    IN IF "toks" \in DOMAIN t /\ ~LexOK(t, toks) THEN "violation:split"
+       ELSE IF "lexonly" \in DOMAIN t /\ t.lexonly
+       THEN (IF \E i \in 1..Len(toks) : toks[i].k = "number" THEN "ok" ELSE "skip:no-number")
+       ELSE IF \E i \in 1..Len(toks) : toks[i].k # "number" \/ ~IsPlainNumber(toks[i].v)
        THEN "skip:not-plain-number-text"
        ELSE IF t.err # "" THEN "violation:raised"
        ELSE IF Len(t.vals) # Len(toks) THEN "violation:split"
